@@ -102,16 +102,29 @@ impl GenerationCache {
         structs: &HashMap<String, StructInfo>,
         config: &GenerateConfig,
     ) -> Result<bool, CacheError> {
-        Self::needs_regeneration_with_events(output_dir, commands, structs, &[], config)
+        Self::compare_with_cache(output_dir, commands, structs, &[], config, false)
     }
 
-    /// Check if generation is needed, taking the discovered events into account
+    /// Check if generation is needed, taking the discovered events into account.
+    /// Unlike `needs_regeneration`, this also answers `true` when a file that
+    /// generation would write is missing from the output directory.
     pub fn needs_regeneration_with_events<P: AsRef<Path>>(
         output_dir: P,
         commands: &[CommandInfo],
         structs: &HashMap<String, StructInfo>,
         events: &[EventInfo],
         config: &GenerateConfig,
+    ) -> Result<bool, CacheError> {
+        Self::compare_with_cache(output_dir, commands, structs, events, config, true)
+    }
+
+    fn compare_with_cache<P: AsRef<Path>>(
+        output_dir: P,
+        commands: &[CommandInfo],
+        structs: &HashMap<String, StructInfo>,
+        events: &[EventInfo],
+        config: &GenerateConfig,
+        require_outputs: bool,
     ) -> Result<bool, CacheError> {
         // Try to load previous cache
         let previous_cache = match Self::load(&output_dir) {
@@ -124,6 +137,24 @@ impl GenerationCache {
 
         // Check version compatibility
         if previous_cache.version != Self::CURRENT_VERSION {
+            return Ok(true);
+        }
+
+        // A record cannot vouch for files that are gone: every file a generation
+        // would write must still be there
+        let mut expected_files = vec!["types.ts", "commands.ts", "index.ts"];
+        if !events.is_empty() {
+            expected_files.push("events.ts");
+        }
+        if config.should_visualize_deps() {
+            expected_files.push("dependency-graph.txt");
+            expected_files.push("dependency-graph.dot");
+        }
+        if require_outputs
+            && expected_files
+                .iter()
+                .any(|file| !output_dir.as_ref().join(file).exists())
+        {
             return Ok(true);
         }
 
